@@ -243,6 +243,20 @@ pub fn step_once<W: WorldOps>(e: &mut Engine<W>, pc: &mut ProbeCounts, small: bo
                 touched.push(uid);
             }
         }
+        3 if e.rng.chance(1, 3) => {
+            // destroy through a stale direct handle: must be refused and change nothing
+            let stale: Vec<usize> = {
+                let m = &e.sl(wi).m;
+                let n = m.directs.len();
+                (n.saturating_sub(48)..n).filter(|i| m.archs[m.directs[*i].arch].removals > m.directs[*i].removals).collect()
+            };
+            if !stale.is_empty() {
+                let di = stale[e.rng.below(stale.len())];
+                let kind = 2 + e.rng.below(2);
+                let level = e.rng.below(2);
+                e.op_destroy_stale_direct(wi, di, level, kind);
+            }
+        }
         3 => {
             let (nr, na) = (e.sl(wi).m.dead_recent.len(), e.sl(wi).m.dead_all.len());
             if na > 0 {
